@@ -74,21 +74,22 @@ def gather_atoms(
             symbol_names.append(p.name)
             symbols[p.name] = p.symbol
             lookup[p.name] = p
-            symbol_values[p.name].add(p.value)
+            symbol_values[p.name].add(("parameter", p.value))
         for s in component.states:
             symbol_names.append(s.name)
             symbols[s.name] = s.symbol
             lookup[s.name] = s
-            symbol_values[s.name].add(s.value)
+            symbol_values[s.name].add(("state", s.value))
         for i in component.intermediates:
             symbol_names.append(i.name)
             symbols[i.name] = i.symbol
             lookup[i.name] = i
-            symbol_values[i.name].add(i.expr)
+            symbol_values[i.name].add(("intermediate", i.expr))
         for st in component.state_derivatives:
             symbol_names.append(st.name)
             symbols[st.name] = st.symbol
             lookup[st.name] = st
+            symbol_values[st.name].add(("state_derivative", st.expr))
     return AllAtoms(symbol_names, symbol_values, symbols, lookup)
 
 
